@@ -42,6 +42,14 @@ def catalogue(n, origin=0, rng=None):
         out.append(SpanSpec(f'range({start + origin},..)', (lambda a=lab: range(a[0], a[0] + len(a))),
                             [[x] for x in lab], [lab[0] - 1, lab[-1] + 1, 'x', None, 2.5],
                             text_labels=[str(x) for x in lab]))
+    # stepped and descending ranges (labels absent *between* members must not alias a neighbour)
+    a0 = 2000 + origin
+    lab = list(range(a0, a0 + 5 * n, 5))
+    out.append(SpanSpec('range(step=5)', (lambda a0=a0, n=n: range(a0, a0 + 5 * n, 5)), [[x] for x in lab],
+                        [a0 + 1, a0 + 4, a0 - 5, a0 + 5 * n, a0 + 5 * (n - 1) + 2], text_labels=[str(x) for x in lab]))
+    lab = list(range(a0 + 10, a0 + 10 - 2 * n, -2))
+    out.append(SpanSpec('range(step=-2)', (lambda a0=a0, n=n: range(a0 + 10, a0 + 10 - 2 * n, -2)), [[x] for x in lab],
+                        [a0 + 9, a0 + 12, a0 + 10 - 2 * n, a0 + 10 - 2 * n + 1], text_labels=[str(x) for x in lab]))
     # list of ints (non-contiguous, unsorted)
     lab = [(7 * i * i + 3 * i + 11) % 101 + 1000 for i in range(n)]
     if len(set(lab)) == n:
